@@ -643,7 +643,18 @@ func (m *Manager) persistState() error {
 		return err
 	}
 
-	return os.WriteFile(m.stateFile, data, 0600)
+	// Write atomically (temp file + rename) so that a crash in the middle of a
+	// save leaves either the previous or the new state on disk, never a
+	// truncated file.
+	tempPath := m.stateFile + ".tmp"
+	if err := os.WriteFile(tempPath, data, 0600); err != nil {
+		return err
+	}
+	if err := os.Rename(tempPath, m.stateFile); err != nil {
+		os.Remove(tempPath) // Clean up temp file
+		return err
+	}
+	return nil
 }
 
 // LoadState loads persisted state from disk.
